@@ -53,6 +53,14 @@ class Loud:
         return hash(self.v)
 
 
+class LoudStr(str):
+    """a str whose length protocol prints: dynamic seeding must not ask a value of the module for it"""
+
+    def __len__(self):
+        print("len")
+        return str.__len__(self)
+
+
 def cmp_eq(a, b):
     if a == b:
         return "eq"
@@ -348,7 +356,8 @@ def argument_vectors(mod):
     L = lambda *xs: [lambda xs=xs: xs]     # noqa: E731
     def many(items):
         return [lambda it=it: it for it in items]
-    vec["cmp_eq"] = many(pairs) + [lambda: (mod.Loud(1), mod.Loud(1)), lambda: (mod.OnlyLt(1), mod.OnlyLt(1))]
+    vec["cmp_eq"] = many(pairs) + [lambda: (mod.Loud(1), mod.Loud(1)), lambda: (mod.OnlyLt(1), mod.OnlyLt(1)),
+                                   lambda: (mod.LoudStr("abc"), "abc"), lambda: (mod.LoudStr("abc"), mod.LoudStr("abc"))]
     vec["cmp_ne"] = many(pairs)
     vec["cmp_lt"] = many(pairs) + [lambda: (mod.OnlyLt(1), mod.OnlyLt(2)), lambda: (mod.OnlyLt(2), mod.OnlyLt(1)), lambda: (mod.Loud(1), mod.Loud(2))]
     vec["cmp_le"] = many(pairs) + [lambda: (mod.OnlyLt(1), mod.OnlyLt(2))]
@@ -369,7 +378,8 @@ def argument_vectors(mod):
     vec["raises"] = many([(4,), (-1,), (nan,), ("x",), (10 ** 400,)])
     vec["comprehension"] = many([([],), ([0, 1, None, 2],), ((3, 3),)]) + [lambda: (OneShot([1, 0, 2]),)]
     vec["string_ops"] = many([("needle", "nee"), ("abc", "bc"), ("123", "1"), ("   ", " "), ("", ""), ("abc", ("a", "b")), ("abc", ("x", "c")),
-                              ("abc", 1), (b"abc", b"a"), ("needle", "needle")])
+                              ("abc", 1), (b"abc", b"a"), ("needle", "needle")]) + [
+        lambda: (mod.LoudStr("needle"), "nee"), lambda: (mod.LoudStr("needle"), mod.LoudStr("dle"))]
     vec["subscript"] = many([([0, 1, 2], 1), ([0, 1, 2], 0), ("abc", 1), ({1: 0}, 1), ([1], 5)])
     vec["mutate_args"] = [lambda: ([7], {7: 1}), lambda: ([7], {}), lambda: (["k", 1], {"j": 0})]
     vec["generator"] = many([(0,), (1,), (5,)])
